@@ -25,6 +25,9 @@ type plan struct {
 	replayOf  string // non-empty: re-offer of an admitted tx (must be rejected)
 	cosmosSeq uint64
 	isCosmos  bool
+	// hostile only relative to the sender's sequence AT EXECUTION: the generator works with the pending sequence, which
+	// over-counts when an earlier transaction of the same sender in the block was refused
+	seqRelative bool
 }
 
 func Run(run *vh.Run) {
@@ -148,6 +151,16 @@ func world(run *vh.Run, label string, wi, nBlocks int) {
 					run.Count("admitted_exec_failed", 1)
 				}
 				run.Count("admitted", 1)
+			}
+			if (p.hostile == "stale-nonce" || p.hostile == "future-nonce") && p.Tx != nil {
+				p.seqRelative, p.cosmosSeq = true, p.Tx.Nonce()
+			}
+			if p.hostile != "" && p.seqRelative && p.Sender != nil {
+				if cur, ok := pre[p.Sender.Addr]; ok && cur == p.cosmosSeq {
+					// the "wrong" sequence happens to be the right one at this point of the block: an ordinary valid transaction
+					p.hostile, p.Class = "", "ok"
+					run.Count("hostile_sequence_cases_that_were_valid_at_execution", 1)
+				}
 			}
 			cls := p.Class
 			if p.hostile != "" {
@@ -357,7 +370,7 @@ func hostile(w *vh.World, r *vh.RNG, s *vh.Acct) *plan {
 		if err != nil {
 			return nil
 		}
-		return &plan{TxPlan: &vh.TxPlan{Kind: "cosmos-hostile", Class: class, Sender: s, Bytes: c.Encode(txb)}, hostile: class, isCosmos: true}
+		return &plan{TxPlan: &vh.TxPlan{Kind: "cosmos-hostile", Class: class, Sender: s, Bytes: c.Encode(txb)}, hostile: class, isCosmos: true, cosmosSeq: *opts.Seq, seqRelative: class == "cosmos-wrong-sequence" || class == "cosmos-stale-sequence"}
 	}
 }
 
